@@ -62,7 +62,16 @@ def head(hints, pool, kinds, closefd=False):
     close callback). Descriptor numbers are invisible at the level of the model (contexts are
     identified by descriptor identity), so the model treats R like C; the real back-ends must too."""
     flag = " R" if closefd == "R" else (" C" if closefd else "")
+    # flag I: every other select/poll/epoll_wait call of the run first fails with EINTR (a signal
+    # arrived): invisible to the model, the loop must simply wait again
+    global _HEADS
+    _HEADS += 1
+    if _HEADS % 3 == 0:
+        flag += " I"
     return ["cfg %d %d%s%s" % (hints, pool, LEGACY, flag)] + ["fd %s" % k for k in kinds]
+
+
+_HEADS = 0
 
 
 def gen_fd_reuse(ctx, rng, exact):
